@@ -418,6 +418,7 @@ func TestVerifC02Wiring(t *testing.T) {
 	wedgeUnit = uC02
 	rapid.Check(t, func(rt *rapid.T) {
 		sc, labels := genMixedScenario(rt, true)
+		uC02.Journal(sc) // a crash of the broker code kills the test process: the journal names the case
 		// classification needs one execution: run once, classify, then the repetitions
 		var nt bool
 		err := vstat.Safely(func() error {
@@ -447,6 +448,7 @@ func TestVerifC02Wiring(t *testing.T) {
 			rt.Fatalf("%s", uC02.Fail(sc, "%v", err))
 		}
 	})
+	uC02.JournalDone()
 }
 
 // ---------------------------------------------------------------------------
@@ -518,8 +520,10 @@ func TestVerifC03Matching(t *testing.T) {
 			labels = append(labels, "distinct instants")
 		}
 		nt, l2 := matchingInteresting(&sc)
+		uC03.Journal(sc)
 		vstat.Run(uC03, t, rt, sc, nt, append(labels, l2...), runC03)
 	})
+	uC03.JournalDone()
 }
 
 // The NAT compatibility matrix, enumerated exhaustively with wire variants and doors.
